@@ -132,10 +132,12 @@ KINDS = ["gaussian", "gaussian_default", "gaussian_arraycov", "gaussian_cplx", "
          # forward models with keyword arguments (default and non-default values), mixed-dtype data trees,
          # narrow / unsigned / single-precision data dtypes
          "amend_kwargs", "amend_kwargs_default", "amend_kwargs_poisson", "vcg_mixed_tree",
-         "gaussian_f32", "poisson_u8", "poisson_i32", "categorical_i32", "categorical_u8"]
+         "poisson_u8", "poisson_i32", "categorical_i32", "categorical_u8"]
+# (float32 data declares a float32 domain; evaluating it at float64 points is a dtype mismatch of the caller
+#  -- jax.linear_transpose refuses it -- so single precision is exercised on the classic side only, C11)
 EXACT_PULLBACK = {"gaussian", "gaussian_default", "gaussian_arraycov", "gaussian_cplx", "gaussian_tree", "studentt", "poisson",
                   "amend_poisson", "sum_gauss_poisson", "freeze_sum", "amend_cplx", "sum_cplx", "freeze_cplx",
-                  "amend_kwargs", "amend_kwargs_default", "amend_kwargs_poisson", "gaussian_f32", "poisson_u8", "poisson_i32"}
+                  "amend_kwargs", "amend_kwargs_default", "amend_kwargs_poisson", "poisson_u8", "poisson_i32"}
 
 
 def krng(kind, seed):
@@ -668,6 +670,34 @@ def corr_generated(rend, seed, nrep):
         yield "vcg_cplx transformation", [[R["vcg_cplx_t0"](f(a.real), f(b.real), f(e)) for a, b, e in zip(dc_, mc_, s)],
                                           [R["vcg_cplx_t0im"](f(a.imag), f(b.imag), f(e)) for a, b, e in zip(dc_, mc_, s)],
                                           [R["vcg_cplx_t1"](f(e)) for e in s]], [np.real(r[0]), np.imag(r[0]), r[1]]
+        # mixed-dtype data tree: leaf "flux" real, leaf "vis" complex -- each leaf against the generated
+        # real resp. complex formulas
+        s2, v2 = np.exp(rng.normal(size=n) * 0.5), rng.normal(size=n)
+        V_ = lambda a, b: jft.Vector({"vis": jnp.asarray(a), "flux": jnp.asarray(b)})
+        lh = jft.VariableCovarianceGaussian(V_(dc_, d))
+        P, Tn = jft.Vector((V_(mc_, m), V_(s, s2))), jft.Vector((V_(vc_, v), V_(v1, v2)))
+        e_gen = sum(R["vcg_cplx_E"](f(a.real), f(a.imag), f(b.real), f(b.imag), f(e)) for a, b, e in zip(dc_, mc_, s)) \
+            + sum(R["vcg_real_E"](f(a), f(b), f(e)) for a, b, e in zip(d, m, s2))
+        yield "vcg_mixed_tree energy", e_gen, float(lh.energy(P))
+        for nm, meth, g0, g0i, g1, r0, r1 in (("metric", lh.metric, "vcg_cplx_M0", "vcg_cplx_M0im", "vcg_cplx_M1", "vcg_real_M0", "vcg_real_M1"),
+                                             ("lsm", lh.left_sqrt_metric, "vcg_cplx_L0", "vcg_cplx_L0im", "vcg_cplx_L1", "vcg_real_L0", "vcg_real_L1")):
+            r = meth(P, Tn)
+            yield "vcg_mixed_tree %s (complex leaf)" % nm, [[R[g0](f(e), f(a.real)) for a, e in zip(vc_, s)], [R[g0i](f(e), f(a.imag)) for a, e in zip(vc_, s)],
+                                                            [R[g1](f(e), f(a)) for a, e in zip(v1, s)]], \
+                [np.real(r[0].tree["vis"]), np.imag(r[0].tree["vis"]), r[1].tree["vis"]]
+            yield "vcg_mixed_tree %s (real leaf)" % nm, [[R[r0](f(e), f(a)) for a, e in zip(v, s2)], [R[r1](f(e), f(a)) for a, e in zip(v2, s2)]], \
+                [r[0].tree["flux"], r[1].tree["flux"]]
+        r = lh.transformation(P)
+        yield "vcg_mixed_tree transformation (complex leaf)", [[R["vcg_cplx_t0"](f(a.real), f(b.real), f(e)) for a, b, e in zip(dc_, mc_, s)],
+                                                               [R["vcg_cplx_t0im"](f(a.imag), f(b.imag), f(e)) for a, b, e in zip(dc_, mc_, s)],
+                                                               [R["vcg_cplx_t1"](f(e)) for e in s]], \
+            [np.real(r[0].tree["vis"]), np.imag(r[0].tree["vis"]), r[1].tree["vis"]]
+        yield "vcg_mixed_tree transformation (real leaf)", [[R["vcg_real_t0"](f(a), f(b), f(e)) for a, b, e in zip(d, m, s2)], [R["vcg_real_t1"](f(e)) for e in s2]], \
+            [r[0].tree["flux"], r[1].tree["flux"]]
+        # Poisson counts in narrow / unsigned integer dtypes
+        for pdt in (np.uint8, np.int32, np.uint16):
+            lhp = jft.Poissonian(jnp.asarray(dp.astype(pdt)))
+            yield "poisson energy (%s data)" % np.dtype(pdt).name, sum(R["poisson_E"](f(a), f(b)) for a, b in zip(dp, xp)), float(lhp.energy(jnp.asarray(xp)))
         lh = jft.VariableCovarianceStudentT(jnp.asarray(d), dof)
         P, Tn = (jnp.asarray(m), jnp.asarray(s)), (jnp.asarray(v), jnp.asarray(v1))
         yield "vcstudentt energy", sum(R["vcst_E"](dof, f(a), f(b), f(e)) for a, b, e in zip(d, m, s)), float(lh.energy(P))
